@@ -122,7 +122,14 @@ pub fn convert(kind: &str, b: &[u8]) -> Option<String> {
 // textual routes out (C14)
 
 macro_rules! routes_kind {
-    ($B:ty, $O:ty, $new:expr, $b:expr) => {{
+    ($B:ty, $O:ty, $new:expr, $b:expr) => {
+        routes_kind!($B, $O, $new, $b, |v: &$B, s: &str, bad: &mut Vec<&str>| {
+            if !(*v == s) { bad.push("eq_str") }
+            let other = format!("{}x", s);
+            if *v == other.as_str() { bad.push("eq_str_other") }
+        })
+    };
+    ($B:ty, $O:ty, $new:expr, $b:expr, $eq:expr) => {{
         let b: &[u8] = $b;
         let Ok(s) = std::str::from_utf8(b) else { return Some("invalid".into()) };
         let Some(v): Option<&$B> = ($new)(b, s) else { return Some("invalid".into()) };
@@ -144,9 +151,7 @@ macro_rules! routes_kind {
         if String::from(o.clone()) != s { bad.push("from_string") }
         if serde_json::to_string(v).ok() != serde_json::to_string(s).ok() { bad.push("serde") }
         if serde_json::to_string(&o).ok() != serde_json::to_string(s).ok() { bad.push("owned_serde") }
-        if !(*v == s) { bad.push("eq_str") }
-        let other = format!("{}x", s);
-        if *v == other.as_str() { bad.push("eq_str_other") }
+        ($eq)(v, s, &mut bad);
         if bad.is_empty() { Some("1".to_string()) } else { Some(format!("ROUTES {}", bad.join(","))) }
     }};
 }
@@ -162,6 +167,18 @@ pub fn routes(kind: &str, b: &[u8]) -> Option<String> {
         "iriRef" => routes_kind!(IriRef, IriRefBuf, |_b, s: &'static str| IriRef::new(s).ok(), leak(b)),
         "iriAuthority" => routes_kind!(iri::Authority, iri::AuthorityBuf, |_b, s: &'static str| iri::Authority::new(s).ok(), leak(b)),
         "iriUserInfo" => routes_kind!(iri::UserInfo, iri::UserInfoBuf, |_b, s: &'static str| iri::UserInfo::new(s).ok(), leak(b)),
+        "scheme" => routes_kind!(uri::Scheme, uri::SchemeBuf, |b: &'static [u8], _s| uri::Scheme::new(b).ok(), leak(b), |_v: &uri::Scheme, _s: &str, _bad: &mut Vec<&str>| {}),
+        "port" => routes_kind!(uri::Port, uri::PortBuf, |b: &'static [u8], _s| uri::Port::new(b).ok(), leak(b), |_v: &uri::Port, _s: &str, _bad: &mut Vec<&str>| {}),
+        "uriHost" => routes_kind!(uri::Host, uri::HostBuf, |b: &'static [u8], _s| uri::Host::new(b).ok(), leak(b)),
+        "uriPath" => routes_kind!(uri::Path, uri::PathBuf, |b: &'static [u8], _s| uri::Path::new(b).ok(), leak(b)),
+        "uriSegment" => routes_kind!(uri::Segment, uri::SegmentBuf, |b: &'static [u8], _s| uri::Segment::new(b).ok(), leak(b), |_v: &uri::Segment, _s: &str, _bad: &mut Vec<&str>| {}),
+        "uriQuery" => routes_kind!(uri::Query, uri::QueryBuf, |b: &'static [u8], _s| uri::Query::new(b).ok(), leak(b)),
+        "uriFragment" => routes_kind!(uri::Fragment, uri::FragmentBuf, |b: &'static [u8], _s| uri::Fragment::new(b).ok(), leak(b)),
+        "iriHost" => routes_kind!(iri::Host, iri::HostBuf, |_b, s: &'static str| iri::Host::new(s).ok(), leak(b)),
+        "iriPath" => routes_kind!(iri::Path, iri::PathBuf, |_b, s: &'static str| iri::Path::new(s).ok(), leak(b)),
+        "iriSegment" => routes_kind!(iri::Segment, iri::SegmentBuf, |_b, s: &'static str| iri::Segment::new(s).ok(), leak(b), |_v: &iri::Segment, _s: &str, _bad: &mut Vec<&str>| {}),
+        "iriQuery" => routes_kind!(iri::Query, iri::QueryBuf, |_b, s: &'static str| iri::Query::new(s).ok(), leak(b)),
+        "iriFragment" => routes_kind!(iri::Fragment, iri::FragmentBuf, |_b, s: &'static str| iri::Fragment::new(s).ok(), leak(b)),
         _ => None,
     }
 }
@@ -653,7 +670,24 @@ macro_rules! pctref_fam {
             let f = match p.fragment { Some(f) => oct(f.as_pct_str()), None => "-".into() };
             let mut rr = rsegs.clone();
             rr.reverse();
-            Some(format!("ui={} host={} segs=[{}] rev={} query={} fragment={}", ui, host, segs.join(","), b01(rr == segs), q, f))
+            // the same components through the stand-alone accessors (each scans the text again) and
+            // through first() / last() / file_name()
+            let mut same = true;
+            let q2 = match v.query() { Some(q) => oct(q.as_pct_str()), None => "-".into() };
+            let f2 = match v.fragment() { Some(f) => oct(f.as_pct_str()), None => "-".into() };
+            same &= q2 == q && f2 == f;
+            let a2 = v.authority();
+            let ui2 = match a2.and_then(|a| a.user_info()) { Some(u) => oct(u.as_pct_str()), None => "-".into() };
+            let host2 = match a2 { Some(a) => oct(a.host().as_pct_str()), None => "-".into() };
+            same &= ui2 == ui && host2 == host;
+            let segs2: Vec<String> = v.path().segments().map(|s| oct(s.as_pct_str())).collect();
+            same &= segs2 == segs;
+            same &= v.path().first().map(|s| oct(s.as_pct_str())) == segs.first().cloned();
+            same &= v.path().last().map(|s| oct(s.as_pct_str())) == segs.last().cloned();
+            if let Some(n) = v.path().file_name() {
+                same &= Some(oct(n.as_pct_str())) == segs.last().cloned();
+            }
+            Some(format!("ui={} host={} segs=[{}] rev={} query={} fragment={}", ui, host, segs.join(","), b01(rr == segs && same), q, f))
         }
     };
 }
